@@ -1203,16 +1203,15 @@ where
                                 runtime_types.insert(Some(atom!("Object")));
                             }
                         }
-                        _ if self.imported_names.contains_key(&key)
-                            || ident.ctxt.has_mark(self.unresolved_mark) =>
-                        {
-                            // a type imported from another module, or a global / utility type
-                            // this transform does not know: nothing is known about its values,
-                            // so nothing is checked
-                            runtime_types.insert(Some(atom!("any")));
+                        _ if self.classes.contains_key(&key) => {
+                            // the instances of a class declared here are objects
+                            runtime_types.insert(Some(atom!("Object")));
                         }
                         _ => {
-                            runtime_types.insert(Some(atom!("Object")));
+                            // a type imported from another module, a type parameter, a global
+                            // or utility type this transform does not know: nothing is known
+                            // about its values, so nothing is checked
+                            runtime_types.insert(Some(atom!("any")));
                         }
                     }
                 }
